@@ -306,6 +306,32 @@ func (h *c07h) finish(out string, jobs []*c07job) error {
 		}
 	}
 	for _, j := range jobs {
+		for _, c := range j.lits {
+			next++
+			c.ID = next
+			var ks, ii, ri []string
+			for _, e := range c.l.Els {
+				if e.key >= 0 {
+					ks = append(ks, fmt.Sprintf("(Some %d)", e.key))
+				} else {
+					ks = append(ks, "None")
+				}
+			}
+			for _, i := range c.implIdx {
+				ii = append(ii, fmt.Sprint(i))
+			}
+			ridx, rlen := c.l.indexes()
+			for _, i := range ridx {
+				ri = append(ri, fmt.Sprint(i))
+			}
+			byKind["lit"] = append(byKind["lit"], fmt.Sprintf("(%d%%N, %s, (%s, %d), (%s, %d))", c.ID, coqList(ks), coqList(ii), c.implLen, coqList(ri), rlen))
+			sm.ImplComparisons++
+			sm.RefComparisons++
+			sm.count("case:lit")
+			sm.CaseIndex[fmt.Sprint(c.ID)] = map[string]any{"kind": "lit", "type": "host." + c.l.Type, "form": c.l.Form, "literal": c.l.litSrc("host." + c.l.Type)}
+		}
+	}
+	for _, j := range jobs {
 		for _, m := range j.other {
 			next++
 			m.ID = next
@@ -313,8 +339,8 @@ func (h *c07h) finish(out string, jobs []*c07job) error {
 		}
 	}
 	hdr := "From Verif Require Import Lib.Str Boundary.Types Boundary.Marshal Boundary.Cases.\n"
-	per := map[string]int{"arg": 120, "res": 150, "var": 200, "meth": 400, "wrap": 2000, "disp": 2000, "sess": 2000, "echo": 3000, "stmt": 3000}
-	for _, k := range []string{"arg", "res", "var", "meth", "wrap", "disp", "sess", "echo", "stmt"} {
+	per := map[string]int{"arg": 120, "res": 150, "var": 200, "meth": 400, "wrap": 2000, "disp": 2000, "sess": 2000, "echo": 3000, "stmt": 3000, "lit": 3000}
+	for _, k := range []string{"arg", "res", "var", "meth", "wrap", "disp", "sess", "echo", "stmt", "lit"} {
 		cases := byKind[k]
 		for i, n := 0, 0; i < len(cases); i, n = i+per[k], n+1 {
 			e := i + per[k]
